@@ -59,16 +59,28 @@ func govalTier(c *Check) (cases []govalCase, reps int) {
 	return genGoValCases(c, true, `{"int8", "string", "float64", "uint16", "bool"}`), 2
 }
 
-// classify known defects of the unchanged tree by the shape of the type (known_findings.jsonl)
-func govalDeviation(gc govalCase) string {
+// govalDeviation classifies a failure on a case as one of the listed findings of the
+// unchanged tree (known_findings.jsonl) by the feature of the type that triggers it and the
+// way it fails; anything else is a violation.
+func govalDeviation(gc govalCase, msg string) string {
 	s := gc.T.String()
+	has := func(subs ...string) bool {
+		for _, x := range subs {
+			if strings.Contains(s, x) {
+				return true
+			}
+		}
+		return false
+	}
 	switch {
-	case strings.Contains(s, "[]bool") || strings.Contains(s, "[3]bool"):
-		return "bool-array"
-	case strings.Contains(s, "[]int") && !strings.Contains(s, "[]int8") && !strings.Contains(s, "[]int16") && !strings.Contains(s, "[]int32") && !strings.Contains(s, "[]int64"),
-		strings.Contains(s, "[]uint") && !strings.Contains(s, "[]uint8") && !strings.Contains(s, "[]uint16") && !strings.Contains(s, "[]uint32") && !strings.Contains(s, "[]uint64"),
-		strings.Contains(s, "[3]int;") || strings.HasSuffix(s, "[3]int") || strings.Contains(s, "[3]uint;") || strings.HasSuffix(s, "[3]uint"):
-		return "int-uint-array"
+	case has("[]bool", "[3]bool") && strings.Contains(msg, "boolBuilder"):
+		return "bool-array-not-buildable"
+	case (has("[]int;", "[]uint;", "[3]int;", "[3]uint;", "[]int}", "[]uint}", "[3]int}", "[3]uint}") || strings.HasSuffix(s, "]int") || strings.HasSuffix(s, "]uint")) &&
+		(strings.Contains(msg, "intBuilder") || strings.Contains(msg, "uintBuilder")):
+		return "int-uint-array-not-buildable"
+	case (strings.HasPrefix(s, "*map") || strings.HasPrefix(s, "*[]") || strings.HasPrefix(s, "*media") || strings.HasPrefix(s, "*struct")) &&
+		(strings.Contains(msg, "unaddressable") || strings.Contains(msg, "not assignable")):
+		return "pointer-to-container-template"
 	}
 	return ""
 }
@@ -83,7 +95,7 @@ func checkC05(c *Check) {
 		evs, rej := iterateValue(val, cfg)
 		wit := map[string]interface{}{"kind": "goval", "type": gc.T.String(), "class": gc.VC, "value": absValue(val), "events": evsString(evs)}
 		report := func(msg string) {
-			if d := govalDeviation(gc); d != "" && c.Finding(d) {
+			if d := govalDeviation(gc, msg); d != "" && c.Finding(d) {
 				return
 			}
 			c.Violation(msg, wit)
@@ -163,7 +175,7 @@ func checkC04(c *Check) {
 	cases, reps := govalTier(c)
 	forGoVal(c, cases, reps, func(gc govalCase, v reflect.Value, cfg *configuration.Configuration, key string) {
 		val := v.Interface()
-		want := absValueO(val, valAbsOpts{NilIsEmpty: true})
+		want := absValueO(val, valAbsOpts{NilIsEmpty: true, ByValue: true})
 		for _, format := range []string{"cbe", "cte"} {
 			c.Count(key+format, gc.T.E != nil || len(gc.T.Fields) > 0)
 			var doc []byte
@@ -175,7 +187,7 @@ func checkC04(c *Check) {
 			}
 			wit := map[string]interface{}{"kind": "goval-roundtrip", "type": gc.T.String(), "class": gc.VC, "format": format, "value": want, "doc": printable(doc)}
 			report := func(msg string) {
-				if d := govalDeviation(gc); d != "" && c.Finding(d) {
+				if d := govalDeviation(gc, msg); d != "" && c.Finding(d) {
 					return
 				}
 				c.Violation(msg, wit)
@@ -197,7 +209,11 @@ func checkC04(c *Check) {
 				report(fmt.Sprintf("%s round trip of %s (%s): unmarshal fails: %v %v hang=%v; value %s; document %q", format, gc.T, gc.VC, err, p, hung, want, printable(doc)))
 				continue
 			}
-			got := absValueO(back, valAbsOpts{NilIsEmpty: true})
+			// struct and array results are handed back by address (BuilderEventReceiver.GetBuiltObject)
+			if bv := reflect.ValueOf(back); bv.IsValid() && bv.Kind() == reflect.Ptr && !bv.IsNil() && bv.Type().Elem() == v.Type() {
+				back = bv.Elem().Interface()
+			}
+			got := absValueO(back, valAbsOpts{NilIsEmpty: true, ByValue: true})
 			if got != want {
 				report(fmt.Sprintf("%s round trip of %s (%s) changes the value: %s became %s; document %q", format, gc.T, gc.VC, want, got, printable(doc)))
 				continue
